@@ -50,6 +50,7 @@ func (s *Svc) Add(a *AddArgs, r *int64) error {
 }
 
 func (s *Svc) Str(a *string, r *string) error {
+	spin(int64(len(*a)) * 7 % 150) // the argument is looked at after later requests were read
 	*r = *a + "|" + *a
 	return nil
 }
@@ -73,19 +74,27 @@ type callSpec struct {
 	isErr  bool
 }
 
-func mkCall(r *vh.Rng, i int) callSpec {
-	switch r.Intn(5) {
+func mkCall(r *vh.Rng, i int, codecName string) callSpec {
+	switch r.Intn(6) {
+	case 5:
+		// a method the server does not know: it discards the body, whatever its shape, answers
+		// with an error, and goes on with the calls queued behind
+		body, _ := oddBody(r, codecName == "go-json", i)
+		if r.Bool() {
+			return callSpec{"Q.Zilch", body, new(int), "rpc: can't find service Q.Zilch", true}
+		}
+		return callSpec{"S.Nope", body, new(int), "rpc: can't find method S.Nope", true}
 	case 0:
 		a := AddArgs{int64(i*1000 + r.Intn(1000)), int64(r.Intn(1<<30)) - 1<<29}
 		return callSpec{"S.Add", &a, new(int64), vh.Canon(a.A + a.B), false}
 	case 1:
-		s := fmt.Sprintf("e%d-%x", i, r.Bytes(r.Intn(4)))
+		s := fmt.Sprintf("e%d-%x", i, r.Bytes(r.Intn(4))) + escText(r, r.Intn(4))
 		return callSpec{"S.Fail", &s, new(int), "fail:" + s, true}
 	case 2:
-		s := fmt.Sprintf("s%d-%x", i, r.Bytes(r.Intn(40)))
+		s := fmt.Sprintf("s%d-%x", i, r.Bytes(r.Intn(40))) + escText(r, r.Intn(10))
 		return callSpec{"S.Str", &s, new(string), vh.Canon(s + "|" + s), false}
 	default:
-		a := EchoArgs{S: fmt.Sprintf("c%d-%x", i, r.Bytes(r.Intn(6))), N: int64(i*1000 + r.Intn(1000))}
+		a := EchoArgs{S: fmt.Sprintf("c%d-%x", i, r.Bytes(r.Intn(6))) + escText(r, r.Intn(8)), N: int64(i*1000 + r.Intn(1000))}
 		if r.Bool() {
 			a.B = r.Bytes(1 + r.Intn(300))
 		}
@@ -166,7 +175,7 @@ func runRPC(cfg rpcConfig) (res rpcResult) {
 	// ---- N concurrent calls ----
 	calls := make([]callSpec, cfg.n)
 	for i := range calls {
-		calls[i] = mkCall(r, i)
+		calls[i] = mkCall(r, i, cfg.codec)
 	}
 	errs := make([]error, cfg.n)
 	var wg sync.WaitGroup
